@@ -64,8 +64,12 @@ v("P5-ending-if-instead-of-try", [(P, """        try:
         else:
             self._tasks_ended[task_id] = self._tasks_cancelled.pop(task_id)
 """)], {"C01": "ok"})
-v("P6-increment-after-create", [(P, "            self._num_started += 1\n            group_reg.add(task_id)\n", "            group_reg.add(task_id)\n"),
-   (P, "                name=self._task_name(task_id),\n            )\n        return task_id", "                name=self._task_name(task_id),\n            )\n            self._num_started += 1\n        return task_id")], {"C01": "ok"})
+# (until round 13 the increment moved behind create_task counted as behaviour-preserving; seed C11l showed that it is not: with
+#  asyncio.eager_task_factory the new task's first step runs inside create_task and a worker spawning into its own pool reads the same id)
+v("06x-increment-after-create", [(P, "            self._num_started += 1\n            group_reg.add(task_id)\n", "            group_reg.add(task_id)\n"),
+   (P, "                name=self._task_name(task_id),\n            )\n        return task_id", "                name=self._task_name(task_id),\n            )\n            self._num_started += 1\n        return task_id")], {"C11": "R11.1", "C01": "ok"})
+v("P6-increment-after-create", [(P, "            self._num_started += 1\n            group_reg.add(task_id)\n", "            self._num_started += 1\n"),
+   (P, "                name=self._task_name(task_id),\n            )\n        return task_id", "                name=self._task_name(task_id),\n            )\n            group_reg.add(task_id)\n        return task_id")], {"C01": "ok"})
 v("P12-extract-move-helper", [(P, """        try:
             self._tasks_ended[task_id] = self._tasks_running.pop(task_id)
         except KeyError:
@@ -364,7 +368,7 @@ v("29-spawner-wait-suppressed-again", [(P, """        await gather(*self._meta_t
                 return_exceptions=return_exceptions,
             )
 """)], {"C08": "R08.2"})
-v("29b-cancelled-spawners-gather-not-true", [(P, "        await gather(*self._meta_tasks_cancelled, return_exceptions=True)\n", "        await gather(*self._meta_tasks_cancelled, return_exceptions=return_exceptions)\n")], {"C08": "R08.2"})
+v("29b-cancelled-spawners-gather-not-true", [(P, "        await gather(*self._meta_tasks_cancelled, return_exceptions=True)\n        await gather(\n            *not_cancelled_meta_tasks,", "        await gather(*self._meta_tasks_cancelled, return_exceptions=return_exceptions)\n        await gather(\n            *not_cancelled_meta_tasks,")], {"C08": "R08.2"})
 v("30-running-left-out-of-gather", [(P, "            *self._tasks_cancelled.values(),\n            *self._tasks_running.values(),\n            return_exceptions=return_exceptions,", "            *self._tasks_cancelled.values(),\n            return_exceptions=return_exceptions,")], {"C08": "R08.1"})
 v("30b-running-spawners-not-awaited", [(P, "        await gather(\n            *not_cancelled_meta_tasks,\n            return_exceptions=return_exceptions,\n        )\n", "")], {"C08": "R08.1"})
 v("30c-lock-after-first-wait", [(P, "        self.lock()\n        not_cancelled_meta_tasks = (", "        not_cancelled_meta_tasks = ("), (P, "        self._meta_tasks_cancelled.clear()\n        self._group_meta_tasks_running.clear()\n", "        self.lock()\n        self._meta_tasks_cancelled.clear()\n        self._group_meta_tasks_running.clear()\n")], {"C08": "R08.1"})
@@ -600,7 +604,7 @@ v("P-start-task-releases-on-failure", [(P, ACQ, ACQ + "        try:\n           
 v("M3-unix-server-start-function-not-stored", [(SV, "        self._start_unix_server = start_unix_server\n", "")], {"C19": "R19.3"})
 v("M4-members-loop-breaks", [(PA, "            else:\n                continue\n            subparser.set_defaults", "            else:\n                break\n            subparser.set_defaults")], {"C16": "R16.2"})
 
-FLUSH_BODY_START = "        with suppress(CancelledError):\n            await gather(\n                *self._meta_tasks_cancelled,\n                *self._pop_ended_meta_tasks(),"
+FLUSH_BODY_START = "        # A cancelled meta task raises `CancelledError` when it is awaited; that\n        # is collected as a result here, because suppressing the exception\n        # around the `await` would also swallow a cancellation of the caller.\n        await gather(*self._meta_tasks_cancelled, return_exceptions=True)\n        await gather(\n            *self._pop_ended_meta_tasks(),"
 v("P-flush-body-in-helper", [(P, FLUSH_BODY_START, "        await self._flush(return_exceptions)\n\n    async def _flush(self, return_exceptions: bool) -> None:\n" + FLUSH_BODY_START)],
   {"C13": "ok", "C02": "ok", "C03": "ok", "C12": "ok", "C05": "ok"})
 v("42e-flush-skips-when-busy", [(P, FLUSH_BODY_START, "        if self._locked:\n            return\n        await self._flush(return_exceptions)\n\n    async def _flush(self, return_exceptions: bool) -> None:\n" + FLUSH_BODY_START)],
@@ -657,7 +661,7 @@ v("H-P-flush-forget-helper", [(P, """        for task_id in finished:
 """), (P, "    async def gather_and_close(\n", "    def _forget(self, finished) -> None:\n        for task_id in finished:\n            self._tasks_ended.pop(task_id, None)\n            self._tasks_cancelled.pop(task_id, None)\n\n    async def gather_and_close(\n")],
   {"C13": "ok", "C02": "ok", "C12": "ok"})
 
-v("42f-flush-first-gather-not-awaited", [(P, "        with suppress(CancelledError):\n            await gather(\n                *self._meta_tasks_cancelled,", "        with suppress(CancelledError):\n            gather(\n                *self._meta_tasks_cancelled,")],
+v("42f-flush-first-gather-not-awaited", [(P, "        await gather(*self._meta_tasks_cancelled, return_exceptions=True)\n        await gather(\n            *self._pop_ended_meta_tasks(),", "        gather(*self._meta_tasks_cancelled, return_exceptions=True)\n        await gather(\n            *self._pop_ended_meta_tasks(),")],
   {"C08": "R08.2"})
 
 # ---- mechanisms added with refactoring batch 6: each has a passing twin (P-...) and broken siblings that must still be reported
@@ -1125,3 +1129,18 @@ v("register-iter-partial", [(GR, "        return iter(self._ids)\n", "        re
 v("register-pop-overridden", [(GR, "    async def acquire(self) -> bool:\n", "    def pop(self) -> int:\n        return max(self._ids)\n\n    async def acquire(self) -> bool:\n")], {"C07": "R07.10"})
 
 VARIANTS = V
+
+# ---- batch 14 (rf137-rf144): generator imported from a sibling module, private property with a setter, look-ups collected by a helper
+v("P-imported-generator-drains-register", [], {"C07": "ok", "C09": "ok", "C10": "ok"}, base="rf137")
+v("imported-generator-leaves-one-member", [(GR, "    while ids:\n        yield ids.pop()\n", "    while len(ids) > 1:\n        yield ids.pop()\n")], {"C07": "R07.2"}, base="rf137")
+v("imported-generator-yields-without-removing", [(GR, "    while ids:\n        yield ids.pop()\n", "    for i in ids:\n        yield i\n")], {"C07": "alarm"}, base="rf137")
+v("P-private-property-with-setter", [], {"C01": "ok", "C15": "ok"}, base="rf138")
+v("private-setter-used-by-lock", [(P, "        self._locked = True\n        log.info(\"%s is locked!\", str(self))\n", "        self._locked = True\n        self._room_value = 0\n        log.info(\"%s is locked!\", str(self))\n")], {"C01": "R01.4", "C15": "R15.7"}, base="rf138")
+v("P-lookups-collected-by-helper", [], {"C06": "ok", "C07": "ok", "C14": "ok"}, base="rf143")
+v("lookup-helper-filters-ids", [(P, "        return [self._get_running_task(task_id) for task_id in task_ids]\n", "        return [self._get_running_task(task_id) for task_id in task_ids if task_id]\n")], {"C06": "R06.3"}, base="rf143")
+v("lookup-helper-lazy-generator", [(P, "        return [self._get_running_task(task_id) for task_id in task_ids]\n", "        return (self._get_running_task(task_id) for task_id in task_ids)  # type: ignore[return-value]\n")], {"C06": "viol"}, base="rf143")
+v("cancel-each-skips-first", [(P, "        for task in tasks:\n            task.cancel(**cancel_kw)\n", "        for task in list(tasks)[1:]:\n            task.cancel(**cancel_kw)\n")], {"C06": "alarm"}, base="rf143")
+# ---- F9 (fixed in 4221d47): flush() must not absorb the cancellation of its caller
+v("flush-suppresses-callers-cancellation-again", [(P, "        await gather(*self._meta_tasks_cancelled, return_exceptions=True)\n        await gather(\n            *self._pop_ended_meta_tasks(),\n            return_exceptions=return_exceptions,\n        )\n        self._meta_tasks_cancelled.clear()\n        # Only", "        with suppress(CancelledError):\n            await gather(\n                *self._meta_tasks_cancelled,\n                *self._pop_ended_meta_tasks(),\n                return_exceptions=return_exceptions,\n            )\n        self._meta_tasks_cancelled.clear()\n        # Only"), (P, "from math import inf\n", "from contextlib import suppress\nfrom math import inf\n")], {"C07": "R07.11", "C06": "R06.7", "C14": "R14.10"})
+v("until-closed-swallows-cancellation", [(P, "        return await self._closed.wait()\n", "        try:\n            return await self._closed.wait()\n        except CancelledError:\n            return False\n")], {"C07": "R07.11"})
+v("P-flush-cancel-handler-reraises", [(P, "        await gather(*self._meta_tasks_cancelled, return_exceptions=True)\n        await gather(\n            *self._pop_ended_meta_tasks(),", "        try:\n            await gather(*self._meta_tasks_cancelled, return_exceptions=True)\n        except CancelledError:\n            log.debug(\"%s flush interrupted\", str(self))\n            raise\n        await gather(\n            *self._pop_ended_meta_tasks(),")], {"C07": "ok", "C06": "ok", "C13": "ok"})
